@@ -342,6 +342,11 @@ func TestCheck(t *testing.T) {
 	if 2%of == shard {
 		twoListeners(t, rep)
 	}
+	for i, n := range []int{1, 16, 40} {
+		if (i+6)%of == shard {
+			acceptHeldUp(t, rep, n)
+		}
+	}
 	for _, v := range variants {
 		e := &mc.Explorer{Bound: bound, Shard: shard, Of: of, Deadline: deadline}
 		func() {
